@@ -8,10 +8,12 @@ package main
 
 import (
 	"fmt"
+	"math/rand"
 	"sort"
 	"strings"
 
 	"github.com/bytom/bytom/config"
+	dbm "github.com/bytom/bytom/database/leveldb"
 	"github.com/bytom/bytom/protocol/bc"
 	"github.com/bytom/bytom/protocol/bc/types"
 	"github.com/bytom/bytom/protocol/state"
@@ -25,17 +27,27 @@ type nodeCase struct {
 	sut  *node // node under test
 	maxH uint64
 	// oracle bookkeeping
-	finalizedSeq []string
-	finalEver    map[string]bool         // every checkpoint ever reported as last finalized
-	recvValid    map[string]map[int]bool // "src>tgt" -> validators whose validly signed vote the node received
-	justSeen     map[string]bool         // checkpoints already seen justified/finalized
-	admitted     map[string]bool         // "v|src|tgt" votes observed inside checkpoints or posted by the node
-	restarted    bool
-	slashSeen    map[string]bool
-	delivered    map[string]bool
-	rejected     map[string]bool // delivered only in a deliberately corrupted variant
-	mode         string
-	dead         bool
+	finalizedSeq  []string
+	finalEver     map[string]bool         // every checkpoint ever reported as last finalized
+	recvValid     map[string]map[int]bool // "src>tgt" -> validators whose validly signed vote the node received
+	justSeen      map[string]bool         // checkpoints already seen justified/finalized
+	admitted      map[string]bool         // "v|src|tgt" votes observed inside checkpoints or posted by the node
+	restarted     bool
+	slashSeen     map[string]bool
+	lastRefErr    string
+	lastSigner    int
+	ln            *ledgerNames
+	mutants       map[string]string // block name -> broken rule ("" = valid block on top of a mutant)
+	events        []nodeEvent
+	crashLog      *logDB
+	crashDone     bool
+	initLogLen    int
+	dumpAfterInit string
+	blockTxs      map[string][]*txInfo // block name -> its transactions (coinbase first)
+	delivered     map[string]bool
+	rejected      map[string]bool // delivered only in a deliberately corrupted variant
+	mode          string
+	dead          bool
 }
 
 func (nc *nodeCase) emit(op, res string) { nc.c.Op(op, res) }
@@ -43,7 +55,7 @@ func (nc *nodeCase) emit(op, res string) { nc.c.Op(op, res) }
 func newNodeCase(c *Ctx, mode string, E uint64, nVal, local int, pend uint64) *nodeCase {
 	env := newNodeEnv(E, nVal, local, pend)
 	nc := &nodeCase{c: c, env: env, nm: newNamer(), delivered: map[string]bool{}, rejected: map[string]bool{}, mode: mode,
-		finalEver: map[string]bool{"b0": true}, recvValid: map[string]map[int]bool{}, justSeen: map[string]bool{"b0": true}, admitted: map[string]bool{}, slashSeen: map[string]bool{}}
+		finalEver: map[string]bool{"b0": true}, recvValid: map[string]map[int]bool{}, justSeen: map[string]bool{"b0": true}, admitted: map[string]bool{}, slashSeen: map[string]bool{}, ln: newLedgerNames(), blockTxs: map[string][]*txInfo{}, mutants: map[string]string{}}
 	env.useOutsiderKey()
 	ref, err := newNode(env, nil)
 	if err != nil {
@@ -51,11 +63,19 @@ func newNodeCase(c *Ctx, mode string, E uint64, nVal, local int, pend uint64) *n
 	}
 	nc.ref = ref
 	env.useLocalKey()
-	sut, err := newNode(env, nil)
+	var sutDB dbm.DB
+	if recordCrashCase {
+		nc.crashLog = &logDB{DB: dbm.NewMemDB()}
+		sutDB = nc.crashLog
+	}
+	sut, err := newNode(env, sutDB)
 	if err != nil {
 		panic(err)
 	}
 	nc.sut = sut
+	if nc.crashLog != nil {
+		nc.initLogLen = len(nc.crashLog.log)
+	}
 	g := config.GenesisBlock()
 	nc.nm.add("b0", g)
 	nc.delivered["b0"] = true
@@ -63,24 +83,45 @@ func newNodeCase(c *Ctx, mode string, E uint64, nVal, local int, pend uint64) *n
 	if local >= 0 {
 		localS = fmt.Sprint(local)
 	}
-	nc.emit(fmt.Sprintf("reset E=%d V=%d local=%s pend=%d", E, nVal, localS, pend), nc.dump("ok"))
+	nc.dumpAfterInit = nc.dump("ok")
+	nc.emit(fmt.Sprintf("reset E=%d V=%d local=%s pend=%d interval=%d%s", E, nVal, localS, pend, nodeInterval, caseTag), nc.dumpAfterInit)
 	return nc
 }
 
+func (nc *nodeCase) ledgerMode() bool {
+	return nc.mode == "ledger" || nc.mode == "rules" || nc.mode == "crash"
+}
+
 func (nc *nodeCase) close() {
+	if nc.crashLog != nil && !nc.crashDone && len(nc.events) > 0 && !nc.dead {
+		nc.crashDone = true
+		limit := 60
+		if nc.c.Tier == "thorough" {
+			limit = 100000
+		}
+		nc.runCrashPoints(limit)
+	}
 	nc.ref.close()
 	nc.sut.close()
 }
 
 func (nc *nodeCase) dump(res string) string {
 	n := nc.sut
-	return strings.Join([]string{"res=" + res, n.dumpStored(nc.nm), n.dumpChain(nc.nm, nc.maxH), n.dumpOrphans(nc.nm), n.dumpCasper(nc.nm)}, " ")
+	parts := []string{"res=" + res, n.dumpStored(nc.nm), n.dumpChain(nc.nm, nc.maxH), n.dumpOrphans(nc.nm), n.dumpCasper(nc.nm)}
+	if nc.ledgerMode() {
+		parts = append(parts, n.dumpUtxo(nc.ln), n.dumpContracts(nc.ln))
+	}
+	return strings.Join(parts, " ")
 }
 
 // defBlock creates a valid child of `parent` on the reference node and tells the model
 // about it. Returns "" when the reference node rejects the block (should not happen for
 // generator-made blocks; counted).
-func (nc *nodeCase) defBlock(parent string, slotSkip uint64, arb byte, txs []*types.Tx) string {
+func (nc *nodeCase) defBlock(parent string, slotSkip uint64, arb byte, txInfos []*txInfo) string {
+	var txs []*types.Tx
+	for _, ti := range txInfos {
+		txs = append(txs, ti.tx)
+	}
 	p := nc.nm.blocks[parent]
 	ph := p.Hash()
 	nc.env.useOutsiderKey()
@@ -97,15 +138,43 @@ func (nc *nodeCase) defBlock(parent string, slotSkip uint64, arb byte, txs []*ty
 	nc.env.useLocalKey()
 	if r.String() != "ok" {
 		nc.c.Count("ref-rejected-generated-block")
+		nc.lastRefErr = fmt.Sprint(r.err, r.panic)
 		return ""
 	}
+	nc.lastSigner = slotOrder(ck.Timestamp, b.Timestamp, len(nc.env.keys))
+	return nc.registerBlock(parent, b, arb, txInfos)
+}
+
+// registerBlock names a block (and its coinbase outputs) and tells the model about it.
+func (nc *nodeCase) registerBlock(parent string, b *types.Block, arb byte, txInfos []*txInfo) string {
 	name := fmt.Sprintf("b%d", len(nc.nm.order))
 	nc.nm.add(name, b)
 	if b.Height > nc.maxH {
 		nc.maxH = b.Height
 	}
 	slot := (b.Timestamp - nc.nm.blocks["b0"].Timestamp) / nodeInterval
-	nc.emit(fmt.Sprintf("def %s parent=%s h=%d slot=%d rank=%d arb=%d", name, parent, b.Height, slot, rank(b.Hash()), arb), "ok")
+	op := fmt.Sprintf("def %s parent=%s h=%d slot=%d rank=%d arb=%d", name, parent, b.Height, slot, rank(b.Hash()), arb)
+	if nc.mode == "rules" {
+		op += fmt.Sprintf(" ts=%d signer=%d", b.Timestamp-nc.nm.blocks["b0"].Timestamp, nc.lastSigner)
+	}
+	if nc.ledgerMode() {
+		kinds := make([]byte, len(b.Transactions[0].Outputs))
+		for i := range kinds {
+			kinds[i] = 'n'
+		}
+		cb := nc.ln.addTx(b.Transactions[0], nil, kinds, true)
+		all := append([]*txInfo{cb}, txInfos...)
+		nc.blockTxs[name] = all
+		var lines []string
+		for _, ti := range all {
+			for _, o := range ti.outs {
+				nc.ln.outs[o].block = name
+			}
+			lines = append(lines, nc.ln.txLine(ti))
+		}
+		op += " txs=" + strings.Join(lines, "|")
+	}
+	nc.emit(op, "ok")
 	return name
 }
 
@@ -174,7 +243,18 @@ func (nc *nodeCase) deliver(name string, sups ...supSpec) procResult {
 	}()
 	nc.sut.quiesce()
 	nc.delivered[name] = true
-	nc.emit(op, nc.dump(r.String()))
+	if k, ok := nc.mutants[name]; ok && k != "" {
+		for _, cf := range contextFreeMutants {
+			if cf == k {
+				nc.rejected[name] = true
+			}
+		}
+	}
+	d := nc.dump(r.String())
+	nc.emit(op, d)
+	if nc.crashLog != nil {
+		nc.events = append(nc.events, nodeEvent{kind: "deliver", name: name, sups: sups, logLenPost: len(nc.crashLog.log), dumpPost: d})
+	}
 	nc.oracleAfterEvent(op, r)
 	return r
 }
@@ -188,6 +268,9 @@ func (nc *nodeCase) noteValid(src, tgt string, order int) {
 }
 
 func (nc *nodeCase) restart() {
+	if nc.crashLog != nil {
+		return // crash cases restart on every write boundary instead
+	}
 	// the orphan pool lives in memory only: blocks waiting there are forgotten by a restart
 	if orph, _ := nc.sut.chain.VerifNodeOrphans(); true {
 		for _, h := range orph {
@@ -229,7 +312,11 @@ func (nc *nodeCase) vote(order int, src, tgt string, valid bool) {
 		v = 1
 	}
 	op := fmt.Sprintf("vote v=%d src=%s tgt=%s sig=%d", order, src, tgt, v)
-	nc.emit(op, nc.dump(res))
+	dv := nc.dump(res)
+	nc.emit(op, dv)
+	if nc.crashLog != nil {
+		nc.events = append(nc.events, nodeEvent{kind: "vote", order: order, src: src, tgt: tgt, valid: valid, logLenPost: len(nc.crashLog.log), dumpPost: dv})
+	}
 	if res == "panic" {
 		nc.c.Fail("C37:vote-panic", "verification message handling panicked on "+op)
 		return
@@ -256,6 +343,9 @@ func (nc *nodeCase) ancestors(name string) []string {
 
 func (nc *nodeCase) oracleAfterEvent(op string, r procResult) {
 	n := nc.sut
+	if nc.mode == "rules" && r.panic == "" {
+		nc.oracleRules(op)
+	}
 	sig := func(prop, what string) string { return prop + ":" + what }
 	// C12: never panics
 	if r.panic != "" {
@@ -549,12 +639,31 @@ func runNode(c *Ctx) {
 		replayNode(c, lines)
 	}
 	for i := 0; i < c.N; i++ {
-		switch mode {
-		default:
-			genCaseTree(c, mode)
-		}
+		runNodeCase(c, mode, c.Seed, i)
 	}
 }
+
+// runNodeCase generates and runs case number k of a seed. Every case has its own PRNG
+// derived from (seed, k), and its reset line records both, so that one case can be re-run
+// alone (replay) exactly.
+func runNodeCase(c *Ctx, mode string, seed int64, k int) {
+	c.Rng = rand.New(rand.NewSource(seed*1000003 + int64(k)*7919 + 17))
+	caseTag = fmt.Sprintf(" mode=%s seed=%d case=%d", mode, seed, k)
+	defer func() { caseTag = "" }()
+	switch mode {
+	case "ledger":
+		genCaseLedger(c, mode)
+	case "rules":
+		genCaseRules(c, mode)
+	case "crash":
+		genCaseCrash(c, mode)
+	default:
+		genCaseTree(c, mode)
+	}
+}
+
+// caseTag is appended to the reset line of generated cases (empty for literal replays).
+var caseTag string
 
 func genCaseTree(c *Ctx, mode string) {
 	rng := c.Rng
@@ -584,7 +693,9 @@ func genCaseTree(c *Ctx, mode string) {
 		b := nc.nm.blocks[name]
 		// block-carried sup links (only checkpoint blocks use them; others just store them)
 		var sups []supSpec
-		if rng.Intn(4) == 0 {
+		// (crash cases carry no relayed sup links: what unverified header sup links do to a
+		// restarted node is recorded separately as F10a–c)
+		if rng.Intn(4) == 0 && nc.crashLog == nil {
 			sups = nc.randomSups(name)
 		}
 		nc.deliver(name, sups...)
@@ -734,6 +845,7 @@ func (nc *nodeCase) campaign() {
 // replayNode re-executes recorded op lines (reset/def/deliver/vote) on the real node.
 func replayNode(c *Ctx, lines []string) {
 	var nc *nodeCase
+	skipGenerated := false
 	kv := func(w []string) map[string]string {
 		m := map[string]string{}
 		for _, x := range w {
@@ -750,10 +862,23 @@ func replayNode(c *Ctx, lines []string) {
 			continue
 		}
 		m := kv(w[1:])
+		if skipGenerated && w[0] != "reset" {
+			continue
+		}
 		switch w[0] {
 		case "reset":
 			if nc != nil {
 				nc.close()
+				nc = nil
+			}
+			skipGenerated = false
+			if m["seed"] != "" && m["case"] != "" {
+				// a generated case: re-run its generator instead of interpreting the lines
+				var sd int64
+				fmt.Sscan(m["seed"], &sd)
+				runNodeCase(c, m["mode"], sd, atoi(m["case"]))
+				skipGenerated = true
+				continue
 			}
 			local := -1
 			if m["local"] != "-" {
